@@ -122,12 +122,25 @@ func atoi(s string) int64 {
 
 // assocLists mirrors how SaveBefore/AfterAssociations collect the association values of the records.
 func assocLists(in Input) (boss, kids, pets []RecIn) {
+	single := strings.HasSuffix(in.Shape, "struct")
+	seen := map[int64]bool{} // SaveBeforeAssociations (slice branch): belongs-to values with a primary key are saved once per key
 	for _, r := range in.Recs {
 		if r.Nil {
 			continue
 		}
+		var b *RecIn
 		if r.Boss != nil {
-			boss = append(boss, *r.Boss)
+			b = r.Boss
+		} else if r.BossIx > 0 && r.BossIx <= len(in.Shared) {
+			b = &in.Shared[r.BossIx-1]
+		}
+		if b != nil {
+			if single || b.ID == 0 || !seen[b.ID] {
+				boss = append(boss, *b)
+			}
+			if b.ID != 0 {
+				seen[b.ID] = true
+			}
 		}
 		kids = append(kids, r.Kids...)
 		pets = append(pets, r.Pets...)
@@ -195,6 +208,17 @@ func sig(in Input) string {
 		case "update", "updates":
 			if mixedPhase(recv, 0, 4) || mixedPhase(recv, 5, 3) {
 				return "mixed-receivers-on-struct-value"
+			}
+		}
+	}
+	if !in.Skip && base != "struct" && in.Op != "update_column" && in.Op != "update_columns" {
+		n := map[int]int{}
+		for _, r := range in.Recs {
+			if !r.Nil && r.BossIx > 0 && r.BossIx <= len(in.Shared) && in.Shared[r.BossIx-1].ID == 0 {
+				n[r.BossIx]++
+				if n[r.BossIx] > 1 {
+					return "shared-belongs-to-without-key-in-slice"
+				}
 			}
 		}
 	}
@@ -322,11 +346,20 @@ func (g *gen) input(edge bool) Input {
 		// associations with hooks of their own
 		addressable := in.Shape != "struct" && in.Shape != "array_val"
 		if (in.Op == "create" || in.Op == "save") && addressable && r.Chance(2, 5) {
+			// one belongs-to record (primary key set) shared, as the same pointer, by several owners
+			shareFrom := -1
+			if len(in.Recs) >= 2 && !isStruct(in.Shape) && r.Chance(1, 2) {
+				t := g.tag()
+				in.Shared = []RecIn{{ID: 900 + t, Tag: t, Val: int64(r.Range(1, 9))}}
+				shareFrom = r.Intn(len(in.Recs) - 1)
+			}
 			for i := range in.Recs {
 				if in.Recs[i].Nil {
 					continue
 				}
-				if r.Chance(2, 5) {
+				if shareFrom >= 0 && i >= shareFrom && (i <= shareFrom+1 || r.Bool()) {
+					in.Recs[i].BossIx = 1
+				} else if r.Chance(2, 5) {
 					in.Recs[i].Boss = &RecIn{Tag: g.tag(), Val: int64(r.Range(1, 9))}
 				}
 				for k := r.Pick3(); k > 0; k-- {
@@ -362,7 +395,7 @@ func shapeOf(in Input) string {
 	for _, r := range in.Recs {
 		nk += len(r.Kids)
 		np += len(r.Pets)
-		if r.Boss != nil {
+		if r.Boss != nil || r.BossIx > 0 {
 			nb++
 		}
 	}
@@ -417,6 +450,13 @@ func main() {
 		out.Count("error", kind2)
 		boss, kids, pets := assocLists(in)
 		out.Count("association_records", fmt.Sprint(len(boss)+len(kids)+len(pets)))
+		owners := 0
+		for _, rc := range in.Recs {
+			if rc.BossIx > 0 {
+				owners++
+			}
+		}
+		out.Count("owners_sharing_a_belongs_to", fmt.Sprint(owners))
 	}
 
 	readCase := func(f string) Input {
@@ -503,6 +543,13 @@ func main() {
 						{Tag: 101, Val: 1, Boss: &RecIn{Tag: 301, Val: 3}, Kids: kidsOf(200), Pets: []RecIn{{Tag: 401, Val: 4}}},
 						{Tag: 102, Val: 2, Kids: []RecIn{{Tag: 211, Val: 5}}}}},
 					{Op: "create", Type: ty, Shape: "ptr_struct", Recs: []RecIn{{Tag: 101, Val: 1, Boss: &RecIn{Tag: 301, Val: 3}, Kids: kidsOf(200)}}},
+					// several owners of one Create(&slice) sharing ONE belongs-to record (same pointer, key set)
+					{Op: "create", Type: ty, Shape: "ptr_slice_ptr", Shared: []RecIn{{ID: 77, Tag: 301, Val: 3}}, Recs: []RecIn{
+						{Tag: 101, Val: 1, BossIx: 1}, {Tag: 102, Val: 2, BossIx: 1}, {Tag: 103, Val: 3, BossIx: 1}}},
+					{Op: "create", Type: ty, Shape: "ptr_slice_val", Shared: []RecIn{{ID: 78, Tag: 302, Val: 4}}, Recs: []RecIn{
+						{Tag: 101, Val: 1, Boss: &RecIn{Tag: 303, Val: 5}}, {Tag: 102, Val: 2, BossIx: 1}, {Tag: 103, Val: 3, BossIx: 1, Kids: kidsOf(200)}}},
+					{Op: "save", Type: ty, Shape: "slice_ptr", Shared: []RecIn{{ID: 79, Tag: 304, Val: 6}}, Recs: []RecIn{
+						{Tag: 101, Val: 1, BossIx: 1}, {Tag: 102, Val: 2, BossIx: 1}}},
 					{Op: "save", Type: ty, Shape: "ptr_struct", Recs: []RecIn{{ID: 1, Tag: 1, Val: 11, Kids: kidsOf(200), Pets: []RecIn{{Tag: 401, Val: 4}}}}, Seed: g.seed(2)},
 					{Op: "update_column", Type: ty, Shape: "ptr_struct", Recs: []RecIn{{ID: 1, Tag: 1, Val: 11, Kids: kidsOf(200)}}, Seed: g.seed(2), Pay: 61, PayVia: "map_db"},
 					{Op: "updates", Type: ty, Shape: "ptr_slice_ptr", Recs: []RecIn{{ID: 1, Tag: 1, Val: 10}, {ID: 3, Tag: 3, Val: 30}}, Seed: g.seed(3), Pay: 62, PayVia: "map_field"},
@@ -566,6 +613,6 @@ func main() {
 			}
 		}
 	}
-	out.Extra["rule"] = "cases = operation {Create, Save, Update, Updates(map by column / by field name / struct), UpdateColumn(s), Delete, Find, First} x 12 model types (hook presence x pointer/value receivers, incl. none and mixed) x argument shape {*T, T, []T, *[]T, []*T, *[]*T, *[n]T, [n]T, *[n]*T, [n]*T} x 0..6 records x has-many/belongs-to values with hooks of their own x SkipHooks x {default transaction, explicit outer transaction, SkipDefaultTransaction} x failure injected at one or two hook invocations x SetColumn from before-hooks; distinct = distinct (op,type,shape,n,associations,skip,txmode,fails,sets,payload form) tuples; non-trivial = at least 2 hook invocations observed and (a failing invocation was reached, or more than one record, or a SetColumn call)"
+	out.Extra["rule"] = "cases = operation {Create, Save, Update, Updates(map by column / by field name / struct), UpdateColumn(s), Delete, Find, First} x 12 model types (hook presence x pointer/value receivers, incl. none and mixed) x argument shape {*T, T, []T, *[]T, []*T, *[]*T, *[n]T, [n]T, *[n]*T, [n]*T} x 0..6 records x has-many/belongs-to values with hooks of their own (incl. one keyed belongs-to record shared by several owners of a slice) x SkipHooks x {default transaction, explicit outer transaction, SkipDefaultTransaction} x failure injected at one or two hook invocations x SetColumn from before-hooks; distinct = distinct (op,type,shape,n,associations,skip,txmode,fails,sets,payload form) tuples; non-trivial = at least 2 hook invocations observed and (a failing invocation was reached, or more than one record, or a SetColumn call)"
 	lib.Must(out.Flush())
 }
